@@ -106,11 +106,19 @@ pub fn worker_main() -> i32 {
     }
 }
 
-/// option byte of a case: bits 0-1 optimisation level, bit 2 --insert-code, bit 3 --fsigned_char
+/// option byte of a case: bits 0-1 optimisation level, bit 2 --insert-code, bit 3 --fsigned_char,
+/// bits 4-5 bank switching scheme of the build (4K, 3E, 3EP, SuperGame)
 pub fn opts_of(opt: u8) -> Opts {
     let mut o = Opts::o(opt & 3);
     o.insert_code = opt & 4 != 0;
     o.signed_chars = opt & 8 != 0;
+    o.scheme = match (opt >> 4) & 3 {
+        1 => "3E",
+        2 => "3EP",
+        3 => "SuperGame",
+        _ => "4K",
+    }
+    .to_string();
     o.filename = "main.c".into();
     // the files that inputs may include (headers, assembler files, one without final newline)
     o.include_dirs = vec![report::verif_root().join("corpus/include").to_string_lossy().to_string()];
@@ -118,7 +126,7 @@ pub fn opts_of(opt: u8) -> Opts {
 }
 
 /// the files of /verif/corpus/include with their number of lines
-pub const INCLUDABLE: [&str; 4] = ["c16_defs.h", "c16_code.asm", "c16_data.inc", "c16_noeol.h"];
+pub const INCLUDABLE: [&str; 5] = ["c16_defs.h", "c16_code.asm", "c16_data.inc", "c16_noeol.h", "c16_self.h"];
 
 fn include_lines(name: &str) -> Option<u32> {
     let t = std::fs::read_to_string(report::verif_root().join("corpus/include").join(name)).ok()?;
@@ -389,6 +397,10 @@ pub fn gen_case(g: &mut G, corpus: &[String], cfg: &GenCfg) -> Case {
         if g.chance(1, 4) {
             opt |= 4;
         }
+        // one program in four is built for another bank switching scheme than the one it was generated for
+        if g.chance(1, 4) {
+            opt |= (g.below(4) as u8) << 4;
+        }
         return Case { text: c.source(), opt, mutations: vec![format!("unmutated program of the {} generator", name)] };
     }
     if g.chance(1, 60) {
@@ -553,6 +565,9 @@ pub fn gen_case(g: &mut G, corpus: &[String], cfg: &GenCfg) -> Case {
     }
     if g.chance(1, 6) {
         opt |= 8;
+    }
+    if g.chance(1, 8) {
+        opt |= (g.below(4) as u8) << 4;
     }
     Case { text, opt, mutations: muts }
 }
